@@ -131,7 +131,29 @@ def run(eng, rep) -> None:
     for cs in cg.sites_in(f):
         if cs.how == "ctor" and any(c.startswith(tcls.qual + ".") for c in cs.callees):
             ctor = cs
-    opens = [cs for cs in cg.sites_in(f) if "builtins.open" in cs.externals or any(c.endswith("FileSystemProxy.read") or c.endswith("IFileSystemProxy.read") for c in cs.callees)]
+    def is_read(cs):
+        return "builtins.open" in cs.externals or any(c.endswith("FileSystemProxy.read") or c.endswith("IFileSystemProxy.read") for c in cs.callees)
+    opens = [cs for cs in cg.sites_in(f) if is_read(cs)]
+    read_helper = None
+    if not opens:
+        # the read may sit in a one-level helper that receives the path
+        for cs in cg.sites_in(f):
+            if read_helper is None and len(cs.callees) == 1 and cs.how in ("direct", "method") and cs.callees[0] in prog.functions:
+                gfn = prog.functions[cs.callees[0]]
+                if gfn.module is f.module and any(is_read(c2) for c2 in cg.sites_in(gfn)) and cs.node.args:
+                    opens.append(cs)
+                    read_helper = gfn
+    if read_helper is not None:
+        memo = [norm(d, 60) for d in read_helper.node.decorator_list if any(t in norm(d, 60) for t in ("lru_cache", "cache", "memoize", "memoise"))]
+        for d in memo:
+            rep.violation("R20.2", read_helper.file, read_helper.qual, "@" + d, "the module text is memoised per path for the whole process: a second load after the module file changed (or of another project at the same relative path) combines the fresh top-level file with the stale module text")
+        from ..dataflow import stores_in as _stores
+        for kind, tgt, st in _stores(read_helper.node):
+            root = tgt
+            while isinstance(root, (ast.Attribute, ast.Subscript)):
+                root = root.value
+            if isinstance(root, ast.Name) and root.id in read_helper.module.assigns and root.id not in read_helper.local_names():
+                rep.violation("R20.2", read_helper.file, read_helper.qual, norm(st, 60), "module text is kept in module-level object '%s' between loads: a later load sees the text of an earlier one" % root.id)
     if ctor is None or not opens:
         raise AnalysisError("anchor vanished: nested transformer construction / module read in the import callback")
     # R20.2 - the path expression is the argument of the read
@@ -172,7 +194,7 @@ def run(eng, rep) -> None:
             if v is None:
                 continue
             a_v = pv.of(v)
-            reads_file = ("call:.read" in a_v or "call:.read_text" in a_v) and bool(path_atoms_of(pv, path_arg) & a_v)
+            reads_file = ("call:.read" in a_v or "call:.read_text" in a_v or (read_helper is not None and "call:" + read_helper.name in a_v)) and bool(path_atoms_of(pv, path_arg) & a_v)
             rep.check(reads_file, "R20.2", f.file, f.qual, "%s = %s" % (sname, norm(v, 50)), "module text is read from the resolved path",
                       "on some path the text parsed for the module is not read from the resolved module path (%s): a different file's declarations are imported" % ",".join(sorted(x for x in a_v if not x.startswith("const:"))[:4]))
     # nested transformer rooted at the imported file
